@@ -8,7 +8,7 @@ RULE = ("polylines with open and closed subpaths (turning angles 0..180 incl. ex
         "zero-length segments, subpaths returning to their start before Close, ops after Close), three caps, three joins, "
         "miter limits around the switch point, widths incl. 0, negative and NaN: stroke_to_path's op list is compared bit for "
         "bit with the f32 model; and DrawTarget::stroke (white on transparent, identity / translated / uniformly scaled "
-        "transforms) is compared with the region of the statement computed in f64: pixels inside it by more than the margin "
+        "transforms, also magnifying by up to 65536 and reducing by 64 with the geometry scaled inversely; paths lying wholly outside the surface whose caps or miter tips reach in) is compared with the region of the statement computed in f64: pixels inside it by more than the margin "
         "must be 255, pixels outside it by more than the margin 0 (a few 400x400 scenes stroke 120..200 px wide lines that turn by 0.5..8 degrees, where the join wedge is pixels wide); non-trivial = stroke with >= 2 segments")
 
 
@@ -44,6 +44,35 @@ def pixel_check(ctx):
         ml = rng.choice([10.0, 1.0, 2.0, 4.0, 1.5])
         s = rng.choice([1.0, 1.0, 0.5, 2.0])
         tx, ty = rng.choice([(0.0, 0.0), (0.25, -0.5), (2.0, 1.0)])
+        fam = i % 5
+        if fam == 3:
+            # every vertex outside the surface, farther than half the width from it, while a miter tip or a square / round
+            # cap reaches in: a sharp chevron (or a single capped line) pointing at the surface from a random side
+            width = rng.choice([4.0, 6.0, 8.0, 10.0]); join = rng.choice(["miter", "miter", "round", "bevel"]); ml = rng.choice([10.0, 10.0, 4.0, 20.0])
+            cap = rng.choice(["square", "round", "butt"])
+            side = rng.randrange(4)                                 # the vertex lies beyond this side of the surface
+            d = width / 2 + rng.choice([0.3, 0.6, 1.0, 2.0])        # ... by more than half the width
+            along = rng.randrange(3, W - 2) + rng.choice([0.0, 0.5])
+            vx, vy, ux, uy = [(-d, along, 1.0, 0.0), (W + d, along, -1.0, 0.0), (along, -d, 0.0, 1.0), (along, H + d, 0.0, -1.0)][side]
+            tilt = rng.choice([0.0, 0.0, 0.1, -0.15])
+            ux, uy = ux * math.cos(tilt) - uy * math.sin(tilt), ux * math.sin(tilt) + uy * math.cos(tilt)
+            L, h = 20.0, rng.choice([2.0, 3.0, 5.0, 8.0])
+            if rng.random() < 0.7:
+                ax, ay = vx - ux * L - uy * h, vy - uy * L + ux * h
+                bx, by = vx - ux * L + uy * h, vy - uy * L - ux * h
+                pts = [(ax, ay), (vx, vy), (bx, by)]
+            else:
+                pts = [(vx - ux * L, vy - uy * L), (vx, vy)]
+            qz = lambda v: round(v * 4) / 4.0
+            ops = ["M " + scene.fpt(qz(pts[0][0]), qz(pts[0][1]))] + ["L " + scene.fpt(qz(a), qz(b)) for a, b in pts[1:]]
+            s, tx, ty = 1.0, 0.0, 0.0
+        elif fam == 4:
+            # the same kind of geometry drawn tiny in user space under a strongly magnifying transform (or huge under a
+            # reducing one): widths, segment lengths and the region scale with it
+            s = rng.choice([1024.0, 16384.0, 20000.0, 65536.0, 1.0 / 64])
+            ops = [" ".join([o.split()[0]] + [str(FB(bits_f32(int(v)) / s)) for v in o.split()[1:]]) for o in ops]
+            width = width / s
+            tx, ty = 0.0, 0.0
         xf = (s, 0.0, 0.0, s, tx, ty)
         style = "STYLE %d %s %s %d 0 %d" % (FB(width), cap, join, FB(ml), FB(0.0))
         scenes.append("scene %d %d %d I %s ; xf %s ; stroke %s %s SRC solid ffffffff 3 %d 1" % (
